@@ -12,8 +12,9 @@
        over the list of cells handed to them (the frame's cells, in frame order), with DISTINCT;
     4. perseCumulativeGroups as "maximal runs" (specification side; the loop itself is `cumGroups`).
 
-  STDEV / STDEVP / VAR / VARP use math.Pow and math.Sqrt, which the float model (Model/Float.lean) does not
-  have: they stay outside the model (checked by the harness against a separate real query only).
+  STDEV / STDEVP / VAR / VARP (math.Pow(x, 2), math.Sqrt) are C04's exact binary64 model (Model/Aggregate.lean);
+  as analytic functions they live in Model/AnalyticFlags.lean (`varOver`, `stdevOver`, `builtinAgg`) together with
+  the session flags (--strict-equal: DISTINCT, partition keys and peers by identical instead of loosely equal values).
 -/
 import Csvq.Model.Analytic
 import Csvq.Model.Keys
